@@ -783,7 +783,9 @@ def rule_hot_guard(db, chk, cfg, rule="HOT.guard"):
         if not any(x.get("kind") in ("CallExpr", "CXXMemberCallExpr") and db.callee(x)[0] in NEEDS_HOT for x in walk(f.body)):
             continue
         cl = _Hot(db, f)
-        Walker(cl).function(f.body, frozenset())
+        # a function that itself requires a hot edge (checked at each of its call sites) may rely on it
+        own = frozenset(f.params[i].get("name") for i in NEEDS_HOT.get(f.name, ()) if i < len(f.params))
+        Walker(cl).function(f.body, own)
         n += cl.sites
         seen = set()
         nbad = 0
